@@ -318,7 +318,10 @@ def c2s(ctx, report, n):
             bare = [x for x in members if x['k'] in ('s', 'f')]
             if bare:
                 obs.append(call('reindex', bare[0], pol, m, cols, form=rng.randrange(6), rng=rng))
-        for api in (['reindex'] if explicit_len else rng.sample(['sync', 'reindex', 'presync', 'index'], 2)):
+        apis = ['reindex'] if explicit_len else rng.sample(['sync', 'reindex', 'presync', 'index'], 2)
+        if cols['how'] == 'ex':     # a column set explicitly supplied is df_sync's business (presync takes a join policy for the columns)
+            apis = ['sync' if a == 'presync' else a for a in apis]
+        for api in apis:
             obs.append(call(api, tree, pol, m, cols, form=rng.randrange(6), rng=rng))
     ctx.evals += len(obs)
     bad = ctx.validate('Trace_Sync', obs)
